@@ -31,6 +31,9 @@ fn oracle(src: &str, env: Option<(&str, &str)>, event: &str, metadata: &str) -> 
     {
         {
             let srct = String::from_utf8(unhex(src)?).ok()?;
+            if std::env::var("VERIF_TRACE").is_ok() {
+                eprintln!("TRACE {srct:?} {event}");
+            }
             let program = match env {
                 None => crate::vrlrun::compile(&srct).ok()?,
                 Some((tk, mk)) => {
@@ -103,6 +106,12 @@ fn oracle(src: &str, env: Option<(&str, &str)>, event: &str, metadata: &str) -> 
     }
 }
 
+/// `"s" * i64::MAX` makes `[u8]::repeat` abort the whole process (allocation failure is not a panic):
+/// such programs are not run (the abort is C04's finding, not a typing matter)
+pub fn risky_alloc(src: &str) -> bool {
+    src.contains('*') && (src.contains("9223372036854775807") || src.contains("9007199254740993"))
+}
+
 /// programs of the call-free typing generator, compiled against declared environments, on events
 /// generated from the declared kinds
 pub fn generate_env(sink: &mut Sink, rng: &mut Rng, n: u64, op: &str) {
@@ -118,6 +127,10 @@ pub fn generate_env(sink: &mut Sink, rng: &mut Rng, n: u64, op: &str) {
             let mut g = crate::tinfo::TGen::new(rng);
             g.program()
         };
+        if risky_alloc(&src) {
+            sink.count("typed:skipped_huge_repeat");
+            continue;
+        }
         let (tk, mk, declared) = crate::tinfo::gen_env(rng);
         let (stk, smk) = (show_kind(&tk), show_kind(&mk));
         if crate::kindwire::parse_kind(&stk).is_none() || crate::kindwire::parse_kind(&smk).is_none() {
@@ -158,6 +171,10 @@ pub fn generate(sink: &mut Sink, rng: &mut Rng, n: u64, op: &str) {
             let mut g = lang::Gen::new(rng);
             g.program()
         };
+        if risky_alloc(&src) {
+            sink.count("typed:skipped_huge_repeat");
+            continue;
+        }
         if crate::vrlrun::compile(&src).is_err() {
             sink.count("typed:rejected_by_compiler");
             continue;
